@@ -242,7 +242,8 @@ var tableSpan = [4][2]string{{}, {"a", "c"}, {"d", "f"}, {"h", "j"}}
 
 func mkPhysical(t int) *manifest.TableMetadata {
 	lo, hi := base.SeqNum(10*t), base.SeqNum(10*t+5)
-	m := &manifest.TableMetadata{TableNum: base.TableNum(t), Size: uint64(1000 * t),
+	// CreationTime is non-zero as in production (see the newfile5-without-custom-fields finding of part (a)).
+	m := &manifest.TableMetadata{TableNum: base.TableNum(t), Size: uint64(1000 * t), CreationTime: int64(1700000000 + t),
 		SeqNums: base.SeqNumRange{Low: lo, High: hi}, LargestSeqNumAbsolute: hi}
 	if t == 3 {
 		m.BlobReferences = manifest.BlobReferences{{FileID: 7, ValueSize: 100, BackingValueSize: 100}}
@@ -260,7 +261,7 @@ func mkPhysical(t int) *manifest.TableMetadata {
 // mkVirtual mirrors what excise produces: same seqnums, narrower bounds, blob references with a
 // scaled ValueSize and the physical table's value size as BackingValueSize.
 func mkVirtual(t int, phys *manifest.TableMetadata) *manifest.TableMetadata {
-	m := &manifest.TableMetadata{TableNum: base.TableNum(t + 3), Size: phys.Size / 2, Virtual: true,
+	m := &manifest.TableMetadata{TableNum: base.TableNum(t + 3), Size: phys.Size / 2, Virtual: true, CreationTime: int64(1700000100 + t),
 		SeqNums: phys.SeqNums, LargestSeqNumAbsolute: phys.LargestSeqNumAbsolute}
 	for _, r := range phys.BlobReferences {
 		m.BlobReferences = append(m.BlobReferences, manifest.BlobReference{FileID: r.FileID, ValueSize: r.ValueSize / 2, BackingValueSize: r.ValueSize})
